@@ -23,13 +23,31 @@ def gen(rng, small=False):
         if rng.random() < 0.3:
             other = rng.choice(list(cbs))
             r = rng.random()
-            if r < 0.5:
+            if r < 0.35:
                 c['script'] = [dict(op='remove_timer', cid=other)]
+            elif r < 0.55 and not c['ret']:
+                # a callback that manages other timers: takes one off and registers two new one-shots in the same call (the list
+                # of registrations is as long as before or longer afterwards)
+                c['script'] = [dict(op='remove_timer', cid=other),
+                               dict(op='add_timer', cid=110 + c['cid'], delta=rng.choice(PERIODS[2:7]), ret=False),
+                               dict(op='add_timer', cid=120 + c['cid'], delta=rng.choice(PERIODS[2:7]), ret=False)]
             elif r < 0.8 and not c['ret']:
                 c['script'] = [dict(op='add_timer', cid=100 + c['cid'], delta=rng.choice(PERIODS[2:7]), ret=False)]
     nops = rng.randint(1, 6 if small else 12)
     minper = 10 ** 9
     subs = []
+    if len(cbs) >= 2 and rng.random() < 0.25:
+        # two timers with one period registered at one instant: they fall due in the same pass of the job thread, every time
+        d = rng.choice(PERIODS[4:])
+        pair = list(cbs.values())[:2]
+        if rng.random() < 0.6:
+            # ... the first of them managing the second: it takes it off and registers new one-shots in the same call
+            pair[0]['script'] = [dict(op='remove_timer', cid=pair[1]['cid'])] + \
+                                [dict(op='add_timer', cid=130 + i, delta=rng.choice(PERIODS[2:7]), ret=False) for i in range(rng.choice([1, 2, 2, 3]))]
+        for c in pair:
+            if c['ret']:
+                minper = min(minper, d)
+            ops.append(dict(t=t, s=0, op='add_timer', cid=c['cid'], delta=d, ret=c['retval'], script=c.get('script')))
     for k in range(nops):
         r = rng.random()
         t += rng.choice([0, 0, 1, 700, 3000, 40000, 260000, 1200000])
